@@ -144,6 +144,29 @@ theorem pinned_buffering_counterexample :
     cmdDecodePinned 4 [0x61, 0xC3, 0xA9, 0x62] = [0x61, 0xE9, 0x62] := by
   refine ⟨fun _ _ _ => rfl, ?_, ?_, ?_⟩ <;> decide
 
+/-- The `doit.tools` action classes, as documented and as coded.  `LongRunning`: always successful whatever the
+    return code and whether or not it was interrupted (unless the command cannot be built).  `Interactive`:
+    successful iff the return code is 0, otherwise *failed* -- never an error, also above 125.
+    `PythonInteractiveAction`: an error iff the callable raises an `Exception`; every returned value, `False` and
+    `TaskFailed`/`TaskError` instances included, is a success (the statement's "fails iff it returns False" is about
+    `PythonAction`; this class documents "successful unless an exception is raised"). -/
+theorem tools_actions (rc : Int) (i : Bool) (r : PyRet) :
+    (longRunningExec false i rc).outcome = .ok ∧
+    ((interactiveExec false false rc).outcome = .ok ↔ rc = 0) ∧
+    (interactiveExec false false rc).outcome ≠ .error ∧
+    (interactiveExec false true rc).outcome = .raised ∧
+    ((pyInteractiveExec false r).outcome = .error ↔ r = .raisesExc) ∧
+    ((pyInteractiveExec false r).outcome = .raised ↔ r = .raisesBase) ∧
+    (pyInteractiveExec false r).outcome ≠ .failed ∧
+    (∀ d, r = .rDict d → (pyInteractiveExec false r).values = d) := by
+  refine ⟨rfl, ?_, ?_, rfl, ?_, ?_, ?_, ?_⟩
+  · by_cases h : rc = 0 <;> simp [interactiveExec, h]
+  · by_cases h : rc = 0 <;> simp [interactiveExec, h]
+  · cases r <;> simp [pyInteractiveExec]
+  · cases r <;> simp [pyInteractiveExec]
+  · cases r <;> simp [pyInteractiveExec]
+  · intro d hd; subst hd; simp [pyInteractiveExec]
+
 /-! ## `Task.execute` -/
 
 /-- A task stops at its first unsuccessful action (`ran` counts the `execute` calls: the successful prefix plus
